@@ -17,3 +17,19 @@ func (ctrler *StakeCtrler) VerifLastValidators() ([][]byte, []int64) {
 	}
 	return addrs, powers
 }
+
+// VerifCloseRest closes the stores that Close leaves open (the reward ledger and the reward-hash
+// record), so that a harness which opens many applications in one process does not keep them all.
+func (ctrler *StakeCtrler) VerifCloseRest() {
+	ctrler.mtx.Lock()
+	defer ctrler.mtx.Unlock()
+
+	if ctrler.rewardLedger != nil {
+		_ = ctrler.rewardLedger.Close()
+		ctrler.rewardLedger = nil
+	}
+	if ctrler.rwdHashDB != nil {
+		_ = ctrler.rwdHashDB.Close()
+		ctrler.rwdHashDB = nil
+	}
+}
